@@ -1,5 +1,5 @@
 (* Property C14: numbers survive every text <-> binary conversion. Only the property theorems. *)
-From C14 Require Import Model ProofsInt.
+From C14 Require Import Model ProofsInt ProofsEmit ProofsStr ProofsFloat.
 Local Open Scope Z_scope.
 
 (* the literal reader computes the mathematical value of the digit string modulo 2^BN_BITS ... *)
@@ -18,3 +18,42 @@ Print Assumptions C14_reader_exact_partial.
 Theorem C14_reader_exact_refuted : ~ reader_exact.
 Proof. exact reader_exact_refuted. Qed.
 Print Assumptions C14_reader_exact_refuted.
+
+(* ---- the C literal printer against ISO C's typing of integer constants ---- *)
+(* full statement [literal_roundtrip] (every type up to 64 bits, every value in [-2^159, 2^159), every
+   base) is false today: IntegralType:wrap_value is wrong beyond one wrap on the signed side *)
+Theorem C14_literal_roundtrip_refuted : ~ literal_roundtrip.
+Proof. exact literal_roundtrip_refuted. Qed.
+Print Assumptions C14_literal_roundtrip_refuted.
+
+Theorem C14_literal_roundtrip_partial : forall T v base, In T all_int_types -> it_bits T <= 64 ->
+  - 2 ^ (BN_BITS - 1) <= v < 2 ^ (BN_BITS - 1) ->
+  it_bits T < 64 \/ it_signed T = false \/ it_inrange T (nl_prewrap T v) = true ->
+  exists w val, c_eval (nl_emit T v base) = Some ((w, it_signed T), val) /\ c_convert T val = wrap_T T v.
+Proof. exact literal_roundtrip_partial. Qed.
+Print Assumptions C14_literal_roundtrip_partial.
+
+(* ---- run time ---- *)
+Theorem C14_int2str_str2int_roundtrip : forall x, in_i64 x ->
+  exists s, nl_int2str x = Some s /\ nl_str2int10 s = Some x /\ Z.of_nat (length s) <= 21.
+Proof. exact int2str_str2int_roundtrip. Qed.
+Print Assumptions C14_int2str_str2int_roundtrip.
+
+(* ---- floats (partial): decision logic of bn.todecsci; the 17-digit fact is a premise ---- *)
+Theorem C14_todecsci_reads_back_partial :
+  forall (F text : Type) (fmt : Z -> F -> text) (rd : text -> F) (feq : F -> F -> bool),
+    (forall a b, feq a b = true <-> a = b) ->
+    (forall v, rd (fmt 17 v) = v) ->
+    forall v, rd (todecsci64 F text fmt rd feq v) = v.
+Proof. exact todecsci_reads_back. Qed.
+Print Assumptions C14_todecsci_reads_back_partial.
+
+Theorem C14_todecsci_first_partial :
+  forall (F text : Type) (fmt : Z -> F -> text) (rd : text -> F) (feq : F -> F -> bool),
+    (forall a b, feq a b = true <-> a = b) ->
+    forall v,
+    (rd (fmt 15 v) = v -> todecsci64 F text fmt rd feq v = fmt 15 v) /\
+    (rd (fmt 15 v) <> v -> rd (fmt 16 v) = v -> todecsci64 F text fmt rd feq v = fmt 16 v) /\
+    (rd (fmt 15 v) <> v -> rd (fmt 16 v) <> v -> todecsci64 F text fmt rd feq v = fmt 17 v).
+Proof. exact todecsci_first. Qed.
+Print Assumptions C14_todecsci_first_partial.
